@@ -1,11 +1,12 @@
 import EdVerif.Proofs.SqrtRatioImpl
+import EdVerif.Proofs.Closing
 /-!
 Property C16: `field.Element.SqrtRatio` follows the ristretto255 `SQRT_RATIO_M1` contract
 (RFC 9496 §4.2).
 
 `Fe.sqrtRatio u v = (r, wasSquare)` is the executable model of `r.SqrtRatio(u, v)`; `toZ` maps an
 element to `F = ZMod (2^255 - 19)`; `Fe.Inv` is the representation invariant (limbs `≤ 2^52 - 38`)
-established by every public operation.  The hypothesis `ff : FieldFacts` (the `ZMod p` view of the
+established by every public operation.  The hypothesis `fieldFacts : FieldFacts` (the `ZMod p` view of the
 field operations) is discharged by `fieldFacts_of_kernelFacts` and the kernel layer.
 -/
 namespace EdVerif.Props
@@ -17,7 +18,7 @@ open EdVerif.Impl EdVerif.Prims EdVerif.Spec EdVerif.Proofs
 * `u ≠ 0`, `v = 0`: `(0, 0)`;
 * `u/v` a non-zero square: `wasSquare = 1` and `r² = u/v`;
 * `u/v` a non-square: `wasSquare = 0` and `r² = sqrt(-1) · u/v`. -/
-theorem C16 (ff : FieldFacts) (u v : Fe) (hu : Fe.Inv u) (hv : Fe.Inv v) :
+theorem C16 (u v : Fe) (hu : Fe.Inv u) (hv : Fe.Inv v) :
     let res := Fe.sqrtRatio u v
     Fe.Inv res.1 ∧ (toZ res.1).val % 2 = 0 ∧ (res.2 = 0 ∨ res.2 = 1) ∧
     (toZ u = 0 → toZ res.1 = 0 ∧ res.2 = 1) ∧
@@ -26,16 +27,16 @@ theorem C16 (ff : FieldFacts) (u v : Fe) (hu : Fe.Inv u) (hv : Fe.Inv v) :
       res.2 = 1 ∧ toZ res.1 ^ 2 = toZ u / toZ v) ∧
     (toZ u ≠ 0 → toZ v ≠ 0 → ¬ IsSquare (toZ u / toZ v) →
       res.2 = 0 ∧ toZ res.1 ^ 2 = Spec.sqrtM1 * (toZ u / toZ v)) :=
-  sqrtRatio_contract ff u v hu hv
+  sqrtRatio_contract fieldFacts u v hu hv
 
 /-- C16, decoder form: `wasSquare = 1` iff `v x² = u` is solvable, and then `r` is a solution;
 `r` is always non-negative. -/
-theorem C16_decode (ff : FieldFacts) (u v : Fe) (hu : Fe.Inv u) (hv : Fe.Inv v) :
+theorem C16_decode (u v : Fe) (hu : Fe.Inv u) (hv : Fe.Inv v) :
     let res := Fe.sqrtRatio u v
     Fe.Inv res.1 ∧ (toZ res.1).val % 2 = 0 ∧ (res.2 = 0 ∨ res.2 = 1) ∧
     (res.2 = 1 ↔ ∃ x : F, toZ v * x ^ 2 = toZ u) ∧
     (res.2 = 1 → toZ v * toZ res.1 ^ 2 = toZ u) :=
-  sqrtRatio_decode ff u v hu hv
+  sqrtRatio_decode fieldFacts u v hu hv
 
 /-- non-vacuity: the hypotheses are satisfiable -/
 example : ∃ u v : Fe, Fe.Inv u ∧ Fe.Inv v := ⟨⟨4, 0, 0, 0, 0⟩, ⟨1, 0, 0, 0, 0⟩, by decide, by decide⟩
